@@ -3,11 +3,11 @@ from runner import Ob
 from props.common import run_with
 from props.parsecommon import parse_step_obs
 
-NEEDS_LEXER = False
+NEEDS_LEXER = True
 FUNCS = ["cfg_add_searchpath", "cfg_searchpath", "cfg_make_fullpath", "cfg_tilde_expand", "cfg_parse_internal state 5 (section borrows the search path)"]
 
 
-def build_obs(tier, tables=None):
+def build_obs(tier, tables=None, with_lexer=True):
     obs = []
     for nd in (1, 2, 3):
         obs.append(Ob("searchpath-rel-%ddirs" % nd, "path_step.c", ["-DMODE=1", "-DNDIRS=%d" % nd], unwind=8, checks="std", must_reach=("end of harness", "found", "not found")))
@@ -17,17 +17,25 @@ def build_obs(tier, tables=None):
         obs.append(Ob("tilde-n%d" % nn, "path_step.c", ["-DMODE=2", "-DNNAME=%d" % nn], unwind=nn + 4, checks="full", must_reach=("end of harness", "plain", "self", "user")))
     # the parser hands the context's search path to every section it enters (include() resolves through it)
     obs += [o for o in parse_step_obs(["CHK_C17"], "c17sec", states=[5], tier=tier, extra_all=("WITH_PATH=1",)) if "validcb" not in o.key]
+    # the same expansion with one allocation of the call failing (symbolic index): failure or the expanded name, never the raw one
+    from props.C18 import alloc_obs
+    obs += alloc_obs("c17fault", modes=("TILDE",))
+    # "top-level parse and include use the same resolution": include() asks the search path when there is one, tilde
+    # expansion otherwise (the real cfg_lexer_include() on the scanner derived from lexer.l)
+    if with_lexer:
+        from props.inclcommon import push_obs
+        obs += [o for o in push_obs("c17") if "-d0-" in o.key or "-d1-" in o.key]
     return obs
 
 
 def run(tier, seed):
     return run_with(
-        "C17", tier, seed, build_obs, functions=FUNCS,
+        "C17", tier, seed, build_obs, needs_lexer=True, functions=FUNCS + ["cfg_lexer_include (resolution of the target)"],
         bounds="search path of 1-3 directories added through the real cfg_add_searchpath(); file name 1-2 symbolic bytes (relative or absolute); stat() answers {missing, directory, regular} symbolic per candidate; tilde expansion on every name of <= 5 (7) bytes with getpwnam/getpwuid stubs (account known or not, symbolic); parser state 5: a section entered by the parser borrows the context's search path",
         assumptions=[
             "stat/getpwnam/getpwuid/geteuid are stubs (answers symbolic, arguments recorded); the real file system and passwd database are outside the claim",
             "the name handed to getpwnam() is walked under CBMC's pointer checks: a missing terminator is reported as an out-of-bounds read",
-            "include() and cfg_parse() call cfg_searchpath()/cfg_tilde_expand() directly (checked under C13)",
+            "include() resolves its target through cfg_searchpath() when the context has a search path and through cfg_tilde_expand() otherwise (checked here on the real cfg_lexer_include() with recording stubs); cfg_parse() is the same two-way choice (read, not machine-checked)",
         ])
 
 
